@@ -57,4 +57,9 @@ if st:
         len(st), sum(1 for r in st if r["violation"]), sum(1 for r in st if r["failing_input_found"])))
     for r in st:
         if not r["violation"]:
-            print("* missed: %s" % r["patch"])
+            note = ""
+            if r["patch"].endswith("C23/guid_checked_after_transport.diff"):
+                note = (" — deliberately so: it only reorders two error checks of address parsing (an address with both a bad guid and "
+                        "a bad transport option is rejected either way), the property still holds; it is the harmless rewrite "
+                        "that the first C23 oracle flagged (false alarm, section 14) and is kept as a no-alarm control")
+            print("* not reported: %s%s" % (r["patch"], note))
